@@ -42,6 +42,17 @@ model describes the code as it is and as it would be after a fix:
   that path is now held by another versioned id (`reoccupied`): the work
   transform then versions that id's trans-id a second time — refused or
   applied with an inconsistent inventory (`ShelveErr.reoccupied`).
+* `closedCheck = false` (the code at /repo HEAD): `write_shelf` stores whatever
+  `resolve_conflicts` makes of a shelf transform that is not a tree (a file
+  added in a directory whose addition was not selected, one half of a name
+  swap, a removed directory without its removed children ...): the selection
+  is accepted, the changes leave the working tree, and the shelf cannot be
+  read back (NoFinalPath), merges with conflicts or restores something else.
+  `closedCheck = true`: such a selection is refused (`ShelveErr.unclosed`)
+  before anything is written or removed.
+
+A versioned file that is missing from disk is an absent entry (`w i = none`)
+plus a bit in a separate set (`miss`): `shelveMissing` / `unshelveMissing`.
 -/
 namespace BreezyVerif.C15
 
@@ -68,12 +79,16 @@ structure Variant where
   keepExec : Bool
   freshExec : Bool
   pathCheck : Bool
+  closedCheck : Bool := false
   deriving DecidableEq, Repr
 
-/-- the code as it is -/
-def Variant.current : Variant := ⟨false, false, false⟩
-/-- the code with the three defects repaired -/
-def Variant.fixed : Variant := ⟨true, true, true⟩
+/-- the code as it was before any repair -/
+def Variant.current : Variant := ⟨false, false, false, false⟩
+/-- the code at /repo HEAD: the executable-bit and path defects are repaired, a
+selection that is not closed is still accepted -/
+def Variant.head : Variant := ⟨true, true, true, false⟩
+/-- the code with all four defects repaired -/
+def Variant.fixed : Variant := ⟨true, true, true, true⟩
 
 /-- selection of the content change of one id -/
 inductive CSel where
@@ -280,16 +295,35 @@ def reachesRoot (t : Tree) : Nat → Id → Bool
       | none => true
       | some p => (match t p with | some pe => pe.kind == .dir | none => false) && reachesRoot t fuel p
 
+/-- `i` is a root (present, no parent) -/
+def isRootAt (t : Tree) (i : Id) : Bool :=
+  match t i with
+  | some e => e.parent.isNone
+  | none => false
+
+/-- `i` and `j` are both present and claim the same name in the same directory -/
+def clash (t : Tree) (i j : Id) : Bool :=
+  match t i, t j with
+  | some a, some b => a.parent == b.parent && a.name == b.name
+  | _, _ => false
+
 /-- well-formed over the finite id universe `ids` (what `find_raw_conflicts`
 accepts: parents exist and are directories, no loop, one root, unique sibling names) -/
 def wf (ids : List Id) (t : Tree) : Bool :=
   let present := ids.filter fun i => (t i).isSome
   present.all (fun i => reachesRoot t (ids.length + 1) i) &&
-  (present.filter fun i => match t i with | some e => e.parent.isNone | none => false).length == 1 &&
-  present.all (fun i => present.all fun j =>
-    i == j || match t i, t j with
-      | some a, some b => !(a.parent == b.parent && a.name == b.name)
-      | _, _ => true)
+  (present.filter (isRootAt t)).length == 1 &&
+  present.all (fun i => present.all fun j => i == j || !clash t i j)
+
+/-- `find_raw_conflicts`: 'non-directory parent' — some present entry's parent is present but not a directory -/
+def hasNonDirParent (ids : List Id) (t : Tree) : Bool :=
+  ids.any fun i =>
+    match t i with
+    | none => false
+    | some e =>
+      match e.parent with
+      | none => false
+      | some p => match t p with | some pe => pe.kind != .dir | none => false
 
 inductive ShelveErr where
   /-- `work_transform.apply()` raises MalformedTransform -/
@@ -299,6 +333,12 @@ inductive ShelveErr where
   ImmortalPendingDeletion) or applied, leaving an inventory with two entries for one path — never
   a correct shelve -/
   | reoccupied
+  /-- `write_shelf` refuses: the stored tree would not be a tree (`closedCheck`) -/
+  | unclosed
+  /-- without the closedness check `write_shelf` runs `resolve_conflicts` on the shelf transform, and the
+  resolver of a 'non-directory parent' conflict asks the underlying REVISION tree for
+  `supports_setting_file_ids`, which it does not have: AttributeError before anything is applied -/
+  | resolveCrash
   deriving DecidableEq, Repr
 
 /-- `id2path`: the names from the root down to `i` (`none` when the parent chain is broken or loops) -/
@@ -329,6 +369,8 @@ def reoccupied (ids : List Id) (s : TSel) (b w : Tree) : List (Id × Id) :=
 /-- `ShelfManager.shelve_changes`: the new working tree and the stored tree -/
 def shelve (v : Variant) (ids : List Id) (s : TSel) (b w : Tree) : Except ShelveErr (Tree × Tree) :=
   if !v.pathCheck && !(reoccupied ids s b w).isEmpty then .error .reoccupied
+  else if v.closedCheck && !wf ids (shelfTree v s b w) then .error .unclosed
+  else if !v.closedCheck && hasNonDirParent ids (shelfTree v s b w) then .error .resolveCrash
   else if wf ids (workTree v s b w) then .ok (workTree v s b w, shelfTree v s b w)
   else .error .malformed
 
@@ -337,6 +379,27 @@ tree and the stored tree are trees (a directory is added before / removed after
 its children, a name is free before it is reused) -/
 def closed (v : Variant) (ids : List Id) (s : TSel) (b w : Tree) : Bool :=
   wf ids (workTree v s b w) && wf ids (shelfTree v s b w)
+
+/-- `get_unshelver` + `make_merger().do_merge()` at tree level: only a stored
+tree that is a tree can be read back and merged id by id.  `none`: the real
+code fails to read the shelf (NoFinalPath), merges with conflicts, or quietly
+produces something else — outside the model. -/
+def unshelveTree (v : Variant) (ids : List Id) (base this : Tree) (rec : Id → Bool) (other : Tree) : Option Tree :=
+  if wf ids other then some (unshelve v base this rec other) else none
+
+/-! ### versioned files that are missing from disk -/
+
+/-- the ids that are versioned but missing after shelving: a selected deletion
+re-creates the file (`shelve_deletion` with `versioned = (True, True)` creates
+the contents and leaves the versioning alone) -/
+def shelveMissing (s : TSel) (miss : Id → Bool) : Id → Bool := fun i => miss i && !(s i).whole
+
+/-- ... and after unshelving: the merge leaves an id alone that the stored tree
+does not change; a stored deletion removes contents AND versioning (a stored
+tree cannot say "versioned, no contents": `find_raw_conflicts` calls that
+'versioning no contents'), so the merge never produces a missing file -/
+def unshelveMissing (base other : Tree) (missThis : Id → Bool) : Id → Bool :=
+  fun i => missThis i && decide (other i = base i)
 
 /-! ### change sets -/
 
@@ -444,6 +507,31 @@ def run (active : List Nat) : List Op → List Nat
     match step active op with
     | some a => run a ops
     | none => run active ops
+
+/-! shelves with their payload (what was shelved under the id) -/
+
+inductive OpC where
+  | new (payload : Nat)
+  | delete (k : Nat)
+  deriving DecidableEq, Repr
+
+abbrev Shelves := List (Nat × Nat)
+
+def idsOf (sh : Shelves) : List Nat := sh.map (·.1)
+
+/-- `read_shelf k` -/
+def lookup (sh : Shelves) (k : Nat) : Option Nat := (sh.find? fun e => e.1 == k).map (·.2)
+
+def stepC (sh : Shelves) : OpC → Option Shelves
+  | .new p => some ((nextId (idsOf sh), p) :: sh)
+  | .delete k => if (idsOf sh).contains k then some (sh.filter fun e => e.1 != k) else none
+
+def runC (sh : Shelves) : List OpC → Shelves
+  | [] => sh
+  | op :: ops =>
+    match stepC sh op with
+    | some a => runC a ops
+    | none => runC sh ops
 
 end Mgr
 
